@@ -313,6 +313,99 @@ def check_inj(eng, run):
 
 
 # ------------------------------------------------------------------------------------------ C01.tbl
+class ConsumeOnce(RuleAnalysis):
+    """a counter of pending (saved, not yet parsed) bytes: fact 'idle' | 'consumed' (added into the amount handed to the parser, not
+    yet cleared) | 'cleared'"""
+    tokens = ("StopIteration", "Exception")
+
+    def __init__(self, engine, attr, adders):
+        super().__init__(engine)
+        self.attr, self.adders = attr, adders
+        self.viol = []
+        self.reads = 0
+
+    def initial(self, fn):
+        return ["idle"]
+
+    def may_raise(self, node, fact):
+        return ["Exception"] if isinstance(node, ast.Call) else []
+
+    def transfer(self, node, fact):
+        if isinstance(node, (ast.AugAssign, ast.Assign)) and not any(dotted(t) == self.attr for t in (node.targets if isinstance(node, ast.Assign) else [node.target])):
+            if any(isinstance(x, ast.Attribute) and dotted(x) == self.attr for x in ast.walk(node.value)):
+                self.reads += 1
+                return ["consumed"]
+        if isinstance(node, ast.Assign) and any(dotted(t) == self.attr for t in node.targets):
+            return ["cleared" if isinstance(node.value, ast.Constant) and node.value.value == 0 else fact]
+        if isinstance(node, ast.Call) and isinstance(node.func, ast.Attribute) and dotted(node.func.value) == self.fn.self_name and node.func.attr in self.adders and fact == "consumed":
+            self.viol.append((node, f"`{node.func.attr}()` adds to `{self.attr}` while the previous count - already handed to the parser - has not been cleared: it is counted twice"))
+        return [fact]
+
+
+def check_consume_once(eng, run, rule="C01.inj"):
+    """the buffered consumer's count of saved remainder bytes is handed to the parser exactly once: after it has been added into the
+    amount passed to the generator it is cleared before anything adds to it again and before every exit"""
+    ci = eng.db.module("lowlevel._stream").classes.get("BufferedStreamDataConsumer")
+    fn = ci.methods.get("next") if ci else None
+    if fn is None:
+        raise AnalysisError("anchor vanished: BufferedStreamDataConsumer.next")
+    me = fn.self_name
+    # counters: self attributes read into an accumulation in next() and incremented by a helper of the class
+    added = {}
+    for m in ci.methods.values():
+        if isinstance(m.node, ast.Lambda) or m.self_name is None:
+            continue
+        for x in own_nodes(m.node):
+            if isinstance(x, ast.AugAssign) and isinstance(x.op, ast.Add) and isinstance(x.target, ast.Attribute) and dotted(x.target.value) == m.self_name:
+                added.setdefault(x.target.attr, set()).add(m.name)
+    n = 0
+    for a, adders in sorted(added.items()):
+        attr = f"{me}.{a}"
+        if not any(isinstance(x, ast.AugAssign) and any(isinstance(y, ast.Attribute) and dotted(y) == attr for y in ast.walk(x.value)) for x in own_nodes(fn.node)):
+            continue
+        n += 1
+        an = ConsumeOnce(eng, attr, adders - {fn.name})
+        out = Interp(an, fn).run()
+        exits = [(k, tr) for k, fm in [("return", out.ret)] + [(f"raise[{t.split('.')[-1]}]", m_) for t, m_ in out.exc.items()] for f, tr in fm.items() if f == "consumed"]
+        for node, msg in an.viol[:1]:
+            run.finding(rule, fn, _stmt_of(fn, node), msg + ": after a malformed frame that was parsed out of a saved remainder, later frames are duplicated or corrupted")
+        for label, tr in exits[:1]:
+            if not an.viol:
+                run.finding(rule, fn, fn.node, f"exit {label} with `{attr}` consumed but not cleared: the same saved bytes are handed to the parser again on the next call", tr)
+        run.ob(rule, f"{fn.short}:{attr}:consumed-once", not an.viol and not exits, reads=an.reads, adders=sorted(adders))
+    run.floor(f"{rule} pending-byte counters", n, 1)
+
+
+def check_json_close(eng, run, rule="C01.esc"):
+    """JSON framer, malformed input: the closers `}` / `]` decrement their counter unconditionally, so a frame that starts with an
+    unbalanced closer drives it below zero - the end-of-frame test must therefore hold for every non-positive count (`<= 0`),
+    otherwise such a frame never ends and swallows the frames behind it"""
+    ci = eng.db.module("serializers.json").classes.get("_JSONParser")
+    rp = ci.methods.get("raw_parse") if ci else None
+    if rp is None:
+        raise AnalysisError("anchor vanished: _JSONParser.raw_parse")
+    counters = {t.id for a in own_nodes(rp.node) if isinstance(a, (ast.Assign, ast.AnnAssign)) and isinstance(getattr(a, "value", None), ast.Call) and (dotted(a.value.func) or "").endswith("Counter")
+                for t in (a.targets if isinstance(a, ast.Assign) else [a.target]) if isinstance(t, ast.Name)}
+    decs = [x for x in own_nodes(rp.node) if isinstance(x, ast.AugAssign) and isinstance(x.op, ast.Sub) and isinstance(x.target, ast.Subscript) and dotted(x.target.value) in counters]
+    ends = [i for i in own_nodes(rp.node) if isinstance(i, ast.If) and any(isinstance(r, ast.Return) for r in i.body) and any(isinstance(y, ast.Subscript) and dotted(y.value) in counters for y in ast.walk(i.test))]
+    if not decs or not ends:
+        raise AnalysisError("anchor vanished: enclosure counters / end-of-frame test of _JSONParser.raw_parse")
+    # is every decrement protected by a `> 0` test on the same counter entry?  (today: none is)
+    guarded = all(any(isinstance(i, ast.If) and d in list(ast.walk(i)) and isinstance(i.test, ast.Compare) and isinstance(i.test.ops[0], ast.Gt) and ast.unparse(i.test.left) == ast.unparse(d.target)
+                      for i in own_nodes(rp.node)) for d in decs)
+    ok = True
+    for i in ends:
+        t = i.test
+        good = isinstance(t, ast.Compare) and len(t.ops) == 1 and isinstance(t.comparators[0], ast.Constant) and (
+            (isinstance(t.ops[0], ast.LtE) and t.comparators[0].value == 0) or (isinstance(t.ops[0], ast.Lt) and t.comparators[0].value == 1))
+        good = good or (isinstance(t, ast.UnaryOp) and isinstance(t.op, ast.Not) and isinstance(t.operand, ast.Compare) and isinstance(t.operand.ops[0], ast.Gt) and ast.unparse(t.operand.comparators[0]) == "0")
+        if not good and not guarded:
+            ok = False
+            run.finding(rule, rp, i, f"end-of-frame test `{ast.unparse(t)}` does not hold for a negative count although closers decrement it unconditionally: a malformed frame starting with an "
+                        "unbalanced `}` / `]` is not cut after that byte, and the following frames are swallowed or mis-split")
+    run.ob(rule, f"{rp.short}:end-of-frame-test-covers-negative-counts", ok, decrements=len(decs), guarded=guarded)
+
+
 def check_tbl(eng, run):
     db = eng.db
     # AutoSeparated: one separator attribute for the writer and both readers
@@ -615,9 +708,11 @@ def run(eng, run):
     check_scan(eng, run)
     check_rem(eng, run)
     check_inj(eng, run)
+    check_consume_once(eng, run)
     check_tbl(eng, run)
     check_copy(eng, run)
     check_esc(eng, run)
+    check_json_close(eng, run)
     from rules.c05 import check_codec
     from sa.report import RuleAlias
     check_codec(eng, RuleAlias(run, "C01.tbl"))
@@ -714,4 +809,35 @@ BENIGN += [
     Variant("json-escape-counting-variant", _ESC, _counting_variant, why="parity computed by counting"),
     Variant("json-escape-rename-local", _ESC, lambda fn: rename_local(fn, "_ESCAPE_BYTE", "esc"), why="local renamed"),
     Variant("fixed-size-frame-tobytes", _FIX, lambda fn: replace_expr(fn, "bytes(buffer[:packet_size])", "buffer[:packet_size].tobytes()"), why="copy through tobytes()"),
+]
+
+
+
+def _clear_count_per_exit(fn):
+    clr = next(st for st in ast.walk(fn) if isinstance(st, ast.Assign) and "__already_written" in ast.unparse(st.targets[0]) and isinstance(st.value, ast.Constant))
+    for n in ast.walk(fn):
+        for fld in ("body", "orelse"):
+            blk = getattr(n, fld, None)
+            if isinstance(blk, list) and clr in blk:
+                blk.remove(clr)
+    t = next(x for x in ast.walk(fn) if isinstance(x, ast.Try) and any("consumer.send" in ast.unparse(b) for b in x.body))
+    for h in t.handlers:
+        if h.type is not None and ast.unparse(h.type) in ("StopIteration", "Exception"):
+            h.body.insert(0, ast.parse("self.__already_written = 0").body[0])
+    t.orelse.insert(0, ast.parse("self.__already_written = 0").body[0])
+
+
+MUTANTS += [
+    Variant("saved-byte-count-not-cleared-on-the-parse-error-path", _BCONS, _clear_count_per_exit, "C01.inj",
+            why="a malformed frame parsed out of a saved remainder: the stale count is applied again (seed C02-7)"),
+]
+
+
+MUTANTS += [
+    Variant("json-end-of-frame-test-equality", "serializers.json:_JSONParser.raw_parse", lambda fn: replace_expr(fn, "enclosure_counter[first_enclosure] <= 0", "enclosure_counter[first_enclosure] == 0"),
+            "C01.esc", why="a frame starting with an unbalanced closer never ends (seed C02-8)"),
+]
+BENIGN += [
+    Variant("json-end-of-frame-test-lt-1", "serializers.json:_JSONParser.raw_parse", lambda fn: replace_expr(fn, "enclosure_counter[first_enclosure] <= 0", "enclosure_counter[first_enclosure] < 1"),
+            why="same test written as < 1"),
 ]
